@@ -2,6 +2,7 @@ package compiler
 
 import (
 	"fmt"
+	"strings"
 
 	"github.com/grafana/cog/internal/ast"
 	"github.com/grafana/cog/internal/tools"
@@ -65,7 +66,7 @@ func (pass *PrefixEnumValues) processEnum(parentName string, def ast.Type) ast.T
 }
 
 func (pass *PrefixEnumValues) enumMemberNameFromValue(member ast.EnumValue) string {
-	if member.Type.Scalar.ScalarKind == ast.KindString && member.Value.(string) == "" {
+	if member.Type.Scalar.ScalarKind == ast.KindString && member.Value == "" {
 		return "None"
 	}
 
@@ -73,7 +74,7 @@ func (pass *PrefixEnumValues) enumMemberNameFromValue(member ast.EnumValue) stri
 		return tools.UpperCamelCase(member.Name)
 	}
 
-	if member.Name[0] == '-' {
+	if strings.HasPrefix(member.Name, "-") {
 		return tools.UpperCamelCase(fmt.Sprintf("negative%s", member.Name[1:]))
 	}
 
